@@ -7,7 +7,8 @@
    wrap-around the model spells out, never wraps.  [reachable keqb c]: c is the state after
    some history  new ; op ; ... ; op  with small weights. *)
 From Coq Require Import NArith ZArith List Permutation.
-From LV Require Import model.Wlru spec.LruSpec proofs.WlruProofs.
+From Coq Require Import Sorted.
+From LV Require Import model.Wlru spec.LruSpec spec.LruRecency proofs.WlruProofs proofs.WlruRecency.
 Import ListNotations.
 Local Open Scope N_scope.
 
@@ -127,6 +128,25 @@ Section C29.
     ev ++ kp = l /\ fits mw ms kp = true /\
     forall ev' kp', ev' ++ kp' = l -> fits mw ms kp' = true -> (length kp' <= length kp)%nat.
   Proof. intros mw ms l ev kp H; split; [exact (trim_split _ _ _ _ _ H) | split; [exact (trim_fits _ _ _ _ _ H) | exact (trim_longest _ _ _ _ _ H)]]. Qed.
+
+  (* 8. LRU order against a notion of recency that mentions no cache state
+        (spec/LruRecency.v: time of the last Add / successful Get / adding ContainsOrAdd or
+        PeekOrAdd of the key in the history): Keys lists the keys from the least to the most
+        recently used, and an operation evicts only entries used less recently than all it keeps. *)
+  Theorem C29_keys_sorted_by_last_use :
+    forall mw ms ops (c0 c : cache K V) tr,
+    small mw -> Forall op_small ops -> new mw ms = Some c0 -> run keqb c0 ops = (c, tr) ->
+    StronglySorted (fun a b => (last_use keqb a ops tr < last_use keqb b ops tr)%nat) (keys c) /\
+    forall k, In k (keys c) -> (0 < last_use keqb k ops tr)%nat.
+  Proof. exact (keys_sorted_by_last_use keqb keqb_spec). Qed.
+
+  Theorem C29_evicted_used_less_recently_than_kept :
+    forall mw ms ops (c0 c : cache K V) tr o c' r lg,
+    small mw -> Forall op_small ops -> op_small o -> new mw ms = Some c0 ->
+    run keqb c0 ops = (c, tr) -> step keqb c o = (c', r, lg) -> evicting o = true ->
+    forall x y, In x (map fst lg) -> In y (keys c') ->
+      (last_use keqb x (ops ++ [o]) (tr ++ [(r, lg)]) < last_use keqb y (ops ++ [o]) (tr ++ [(r, lg)]))%nat.
+  Proof. exact (evicts_least_recently_used keqb keqb_spec). Qed.
 End C29.
 
 (* ---- non-vacuity: concrete histories over numeric keys ---- *)
@@ -147,6 +167,13 @@ Proof.
   eexists _, _. split; [reflexivity|]. split; [vm_compute; reflexivity|].
   split; [repeat constructor | reflexivity].
 Qed.
+
+(* in that history: keys 6, 7, 8 were last used at times 8, 10, 11; key 5 (evicted by the Add of 8)
+   at time 7 -- the Peek at time 9 does not count *)
+Example C29_ex_last_use :
+  forall c0 c tr, new 3 2%Z = Some c0 -> run N.eqb c0 ex_ops = (c, tr) ->
+  map (fun k => last_use N.eqb k ex_ops tr) [5; 6; 7; 8] = [7; 8; 10; 11]%nat /\ keys c = [6; 7; 8].
+Proof. intros c0 c tr [= <-]. vm_compute. intros [= <- <-]. split; reflexivity. Qed.
 
 Example C29_ex_reachable : exists c : cache N N, reachable N.eqb c /\ c_entries c <> [] /\ c_max_weight c < 9.
 Proof.
@@ -173,3 +200,5 @@ Print Assumptions C29_remove_oldest_reports_once.
 Print Assumptions C29_purge_reports_everything.
 Print Assumptions C29_resize_evicts_oldest.
 Print Assumptions C29_spec_keeps_longest_fitting_suffix.
+Print Assumptions C29_keys_sorted_by_last_use.
+Print Assumptions C29_evicted_used_less_recently_than_kept.
